@@ -7,6 +7,7 @@ document id the set and the store say the same thing, with the same stamp.
 -/
 import Datacake.Lemmas.Keyspace
 import Datacake.Props.C04
+import Datacake.Lemmas.SortByTs
 import Datacake.Props.C08
 
 namespace Datacake.C02
@@ -262,7 +263,7 @@ when the request started: `will_apply`; see `DESIGN.md` C02 for when this is aut
 theorem agree_onMultiSet (F : Nat) (n : Node) (src : Nat) (docs : List Doc) (written : Option (List Nat))
     (h : Agree n) (hnd : NoDupIds docs)
     (hacc : ∀ l, (∀ e ∈ l, e ∈ (docs.filter (fun d => willApply n.set d.1 d.2.1)).map (fun d => (d.1, d.2.1))) →
-      (l.map (·.1)).Nodup → C04.Accepted F n.set (toOps src false l)) :
+      (l.map (·.1)).Nodup → l.Pairwise (fun a b => a.2 ≤ b.2) → C04.Accepted F n.set (toOps src false l)) :
     Agree (onMultiSet F n src docs written).1 := by
   unfold onMultiSet
   simp only
@@ -280,7 +281,7 @@ theorem agree_onMultiSet (F : Nat) (n : Node) (src : Nat) (docs : List Doc) (wri
   | none =>
     simp only
     rw [fold_insert_eq]
-    refine agree_bulk F n src false _ _ _ h rfl hentnd ?_ (hacc _ (fun e he => hent.mem_iff.1 he) hentnd) ?_ ?_ ?_
+    refine agree_bulk F n src false _ _ _ h rfl hentnd ?_ (hacc _ (fun e he => hent.mem_iff.1 he) hentnd (sortByTs_sorted _)) ?_ ?_ ?_
     · intro e he; obtain ⟨d, hd, rfl⟩ := (hentmem e).1 he; exact hvw d hd
     · intro k e he hk
       obtain ⟨d, hd, rfl⟩ := (hentmem e).1 he
@@ -314,7 +315,7 @@ theorem agree_onMultiSet (F : Nat) (n : Node) (src : Nat) (docs : List Doc) (wri
     refine agree_bulk F n src false _ _ _ h rfl hfnd ?_
       (hacc _ (fun e he => by
         obtain ⟨d, hd, rfl⟩ := (hfmem e).1 he
-        exact List.mem_map.2 ⟨d, hsub.subset hd, rfl⟩) hfnd) ?_ ?_ ?_
+        exact List.mem_map.2 ⟨d, hsub.subset hd, rfl⟩) hfnd ((sortByTs_sorted _).filter _)) ?_ ?_ ?_
     · intro e he; obtain ⟨d, hd, rfl⟩ := (hfmem e).1 he; exact hvw d (hsub.subset hd)
     · intro k e he hk
       obtain ⟨d, hd, rfl⟩ := (hfmem e).1 he
@@ -331,7 +332,7 @@ when the request started: `will_apply`; see `DESIGN.md` C02 for when this is aut
 theorem agree_onMultiDel (F : Nat) (n : Node) (src : Nat) (docs : List (Nat × Nat)) (written : Option (List Nat))
     (h : Agree n) (hnd : NoDupIds docs)
     (hacc : ∀ l, (∀ e ∈ l, e ∈ (docs.filter (fun d => willApply n.set d.1 d.2)).map (fun d => (d.1, d.2))) →
-      (l.map (·.1)).Nodup → C04.Accepted F n.set (toOps src true l)) :
+      (l.map (·.1)).Nodup → l.Pairwise (fun a b => a.2 ≤ b.2) → C04.Accepted F n.set (toOps src true l)) :
     Agree (onMultiDel F n src docs written).1 := by
   unfold onMultiDel
   simp only
@@ -352,7 +353,7 @@ theorem agree_onMultiDel (F : Nat) (n : Node) (src : Nat) (docs : List (Nat × N
   | none =>
     simp only
     rw [fold_delete_eq]
-    refine agree_bulk F n src true _ _ _ h rfl hentnd ?_ (hacc _ (fun e he => List.mem_map.2 ⟨e, hent.mem_iff.1 he, rfl⟩) hentnd) ?_ ?_ ?_
+    refine agree_bulk F n src true _ _ _ h rfl hentnd ?_ (hacc _ (fun e he => List.mem_map.2 ⟨e, hent.mem_iff.1 he, rfl⟩) hentnd (sortByTs_sorted _)) ?_ ?_ ?_
     · intro e he; obtain ⟨d, hd, rfl⟩ := (hentmem e).1 he; exact hvw d hd
     · intro k e he hk
       obtain ⟨d, hd, rfl⟩ := (hentmem e).1 he
@@ -386,7 +387,7 @@ theorem agree_onMultiDel (F : Nat) (n : Node) (src : Nat) (docs : List (Nat × N
     refine agree_bulk F n src true _ _ _ h rfl hfnd ?_
       (hacc _ (fun e he => by
         obtain ⟨d, hd, rfl⟩ := (hfmem e).1 he
-        exact List.mem_map.2 ⟨d, hsub.subset hd, rfl⟩) hfnd) ?_ ?_ ?_
+        exact List.mem_map.2 ⟨d, hsub.subset hd, rfl⟩) hfnd ((sortByTs_sorted _).filter _)) ?_ ?_ ?_
     · intro e he; obtain ⟨d, hd, rfl⟩ := (hfmem e).1 he; exact hvw d (hsub.subset hd)
     · intro k e he hk
       obtain ⟨d, hd, rfl⟩ := (hfmem e).1 he
@@ -602,10 +603,10 @@ def handle (F : Nat) (n : Node) : Req → Node
 def ReqOk (F : Nat) (n : Node) : Req → Prop
   | .mset src docs _ => NoDupIds docs ∧
       ∀ l, (∀ e ∈ l, e ∈ (docs.filter (fun d => willApply n.set d.1 d.2.1)).map (fun d => (d.1, d.2.1))) →
-        (l.map (·.1)).Nodup → C04.Accepted F n.set (toOps src false l)
+        (l.map (·.1)).Nodup → l.Pairwise (fun a b => a.2 ≤ b.2) → C04.Accepted F n.set (toOps src false l)
   | .mdel src docs _ => NoDupIds docs ∧
       ∀ l, (∀ e ∈ l, e ∈ (docs.filter (fun d => willApply n.set d.1 d.2)).map (fun d => (d.1, d.2))) →
-        (l.map (·.1)).Nodup → C04.Accepted F n.set (toOps src true l)
+        (l.map (·.1)).Nodup → l.Pairwise (fun a b => a.2 ≤ b.2) → C04.Accepted F n.set (toOps src true l)
   | _ => True
 
 def ReqsOk (F : Nat) : Node → List Req → Prop
